@@ -60,6 +60,7 @@ def run(ctx):
     if ctx.quick:
         # keep every k for pause/abort families but thin decisions: deterministic subsample by index
         cases = [c for i, c in enumerate(cases) if i % 3 == ctx.seed % 3]
+    cases += list(corpus.single_fault_cases(names, kinds=("raise", "status_fail")))
     ctx.sweep(cases, check_case)
     ctx.extra["sweep_cases"] = len(cases)
     e1common.generated(ctx, check_case, n=ctx.pick(600, 20000), profile="general")
